@@ -112,6 +112,15 @@ func (w *world) communityPool() sdkmath.LegacyDec {
 
 func (w *world) ctx() sdk.Context { return w.s.Ctx }
 
+// syncHeaderInfo: BaseApp sets the block header and the header info together; the redelegation queue reads the time
+// from the header info, the unbonding queue from the block header
+func (w *world) syncHeaderInfo() {
+	hi := w.s.Ctx.HeaderInfo()
+	hi.Height = w.s.Ctx.BlockHeight()
+	hi.Time = w.s.Ctx.BlockTime()
+	w.s.Ctx = w.s.Ctx.WithHeaderInfo(hi)
+}
+
 func (w *world) accIdx(a sdk.AccAddress) int {
 	for i, x := range w.accs {
 		if bytes.Equal(x, a) {
@@ -189,7 +198,9 @@ func (w *world) dump() string {
 		outst, _ := app.DistrKeeper.GetValidatorOutstandingRewards(ctx, v)
 		com, _ := app.DistrKeeper.GetValidatorAccumulatedCommission(ctx, v)
 		status := "B"
-		if !val.IsBonded() {
+		if val.IsUnbonded() {
+			status = fmt.Sprintf("N%d", val.UnbondingHeight)
+		} else if !val.IsBonded() {
 			status = fmt.Sprintf("U%d", val.UnbondingHeight)
 		}
 		if val.IsJailed() {
@@ -507,6 +518,25 @@ func (w *world) apply(line string) string {
 			w.violate("validator-set update at the end of the block failed: " + r)
 		}
 		w.s.Ctx = w.s.Ctx.WithBlockHeight(w.s.Ctx.BlockHeight() + 1).WithBlockTime(w.s.Ctx.BlockTime().Add(5 * time.Second))
+		w.syncHeaderInfo()
+	case "mature":
+		// the unbonding period passes, then the whole staking EndBlocker runs: validator-set update, validators whose
+		// unbonding period is over become Unbonded, every mature unbonding-delegation entry is paid back from the not-bonded
+		// pool, every mature redelegation entry is dropped
+		ut, err := app.StakingKeeper.UnbondingTime(w.s.Ctx)
+		if err != nil {
+			panic(err)
+		}
+		w.s.Ctx = w.s.Ctx.WithBlockTime(w.s.Ctx.BlockTime().Add(ut + time.Second))
+		w.syncHeaderInfo()
+		if r := hx.Try(func() error {
+			_, err := app.StakingKeeper.BlockValidatorUpdates(w.s.Ctx)
+			return err
+		}); r != "ok" {
+			w.violate("staking EndBlocker after the unbonding period failed: " + r)
+		}
+		w.s.Ctx = w.s.Ctx.WithBlockHeight(w.s.Ctx.BlockHeight() + 1).WithBlockTime(w.s.Ctx.BlockTime().Add(5 * time.Second))
+		w.syncHeaderInfo()
 	case "alloc":
 		a := ints(1)
 		amt := sdkmath.NewIntFromBigInt(bigOf(f[2]))
@@ -871,6 +901,9 @@ func (w *world) transferStats(before snap, kind string, from, to, v int, x *big.
 	})
 	if slashed {
 		w.out.Count("transfer-ok:validator-slashed-before")
+	}
+	if val, err := w.s.App.StakingKeeper.GetValidator(ctx, w.vals[v]); err == nil && val.IsUnbonded() {
+		w.out.Count("transfer-ok:validator-unbonded")
 	}
 	if val, err := w.s.App.StakingKeeper.GetValidator(ctx, w.vals[v]); err == nil && !val.IsBonded() {
 		w.out.Count("transfer-ok:validator-not-bonded")
@@ -1387,6 +1420,10 @@ func (g *gen) next() string {
 	v := r.Intn(w.nVal)
 	hs := g.holders(v)
 	roll := r.Intn(100)
+	// the unbonding period passes (unbonding entries are paid back, redelegations complete, Unbonding -> Unbonded)
+	if r.Intn(45) == 0 {
+		return "mature"
+	}
 	// validator status changes: a validator with delegators leaves the active set (jailed) and may come back
 	if r.Intn(25) == 0 {
 		val, _ := w.s.App.StakingKeeper.GetValidator(w.ctx(), w.vals[v])
@@ -1530,7 +1567,7 @@ func (w *world) genesisRoundTrip() {
 	before, n := hx.DumpStore(cctx, key)
 	r := hx.Try(func() error {
 		gs := w.s.App.DistrKeeper.ExportGenesis(cctx)
-		if err := gs.Validate(); err != nil {
+		if err := distrtypes.ValidateGenesis(gs); err != nil {
 			return fmt.Errorf("exported distribution genesis does not validate: %w", err)
 		}
 		store := cctx.KVStore(key)
